@@ -30,6 +30,11 @@ type Oblig struct {
 	Model  string
 	Extra  []string // extra get-value terms
 	File   string
+	AutoSite bool   // auto-discovered site obligation: a new failing one is a violation
+	Pre    string   // status decided without a solver (dataflow obligations)
+	Replay func(repo string, o *Oblig) (string, bool)
+	Witness string
+	WitnessConfirmed bool
 }
 
 // Gen generates verification conditions for one function (plus inlined callees).
@@ -71,6 +76,7 @@ type Gen struct {
 	qseq     int
 	usedSpecs map[string]bool
 	pureSeen map[string]bool
+	Label    string
 }
 
 type specDef struct {
